@@ -5,7 +5,8 @@ import re
 import vlib
 from graphwalk import Graph, limbs_to_int
 
-C64_TYPES = ["ChaCha8", "XChaCha8", "ChaCha12", "ChaCha20", "XChaCha12", "XChaCha20"]
+# 64-bit-counter types for graph replay; the 8-round types appear more often because TLC recomputes every keystream block
+C64_TYPES = ["ChaCha8", "XChaCha8", "ChaCha12", "ChaCha8", "XChaCha8", "ChaCha20", "ChaCha8", "XChaCha12", "XChaCha8", "XChaCha20"]
 SEEK_TYPES = [("u8", 255), ("u16", 65535), ("i32", 2**31 - 1), ("u32", 2**32 - 1), ("u64", 2**64 - 1), ("usize", 2**64 - 1), ("u128", 2**128 - 1)]
 POS_TYPES = ["u128", "u64", "usize", "u32", "i32", "u16", "u8"]
 
@@ -99,9 +100,11 @@ def model_graph_real(c, depth, tier):
     return Graph(dump + ".dot")
 
 
-def scripts_from_graph(g, seed, maxlen=40):
-    """Edge-covering walks -> harness script text + per-step expected internals (from the model states)."""
+def scripts_from_graph(g, seed, maxlen=40, every=1):
+    """Edge-covering walks -> harness script text + per-step expected internals (from the model states).
+    every = k keeps every k-th walk only (the quick tier replays a third of the walks in the debug build)."""
     walks = g.split_after_self_loops(g.covering_walks(maxlen=maxlen))
+    walks = walks[::every]
     lines, expect = [], []   # expect[i] = dict for the i-th emitted event
     rot = seed
     for wi, (init, walk) in enumerate(walks):
@@ -124,7 +127,11 @@ def scripts_from_graph(g, seed, maxlen=40):
             rot += 1
             m = re.match(r"(\w+)(?:\((.*)\))?$", label)
             act, arg = m.group(1), m.group(2)
-            if act == "DoSeek":
+            if act == "DoSeekRel":
+                p = limbs_to_int(g.field(src, "pos")) - int(arg)
+                fits = [t for t, mx in SEEK_TYPES if p <= mx]
+                lines.append("seek %s 0 %d" % (fits[rot % len(fits)], p))
+            elif act == "DoSeek":
                 p = limbs_to_int(arg)
                 fits = [t for t, mx in SEEK_TYPES if p <= mx]
                 lines.append("seek %s 0 %d" % (fits[rot % len(fits)], p))
@@ -144,11 +151,19 @@ def scripts_from_graph(g, seed, maxlen=40):
         # position (makes persistent hidden-state corruption - e.g. a damaged nonce/counter word - observable); not part of
         # the graph, so no model state is expected for these two records
         probe = [0, 64 * 3 + 5, 2**38 - 130, 64][rot % 4]
-        lines.append("pos u128")                                   # first without any seek: a seek may repair damaged bookkeeping
+        endpos = limbs_to_int(g.field(g.edges[walk[-1]][1] if walk else init, "pos"))
+        nprobe = 0
+        back = [1, 17, 64, 40][rot % 4]
+        if back <= endpos <= 2**64 - 1 + back:
+            # rewind into the data just produced and read it again: a block served from a buffer must still be the right block
+            lines.append("seek u64 0 %d" % (endpos - back))
+            lines.append("apply %d" % [3, 70, 64, 1][rot % 4])
+            nprobe += 2
+        lines.append("pos u128")                                   # then without any seek: a seek may repair damaged bookkeeping
         lines.append("apply %d" % [1, 65, 3, 64][rot % 4])
         lines.append("seek u64 0 %d" % probe)
         lines.append("apply %d" % [70, 130, 1, 64][rot % 4])
-        expect += [None, None, None, None]
+        expect += [None] * (nprobe + 4)
     return "\n".join(lines) + "\n", expect, walks
 
 
@@ -187,7 +202,7 @@ def _canary(ep):
     return None
 
 
-def validate_histories(c, trace, build, label, workers=8):
+def validate_histories(c, trace, build, label, workers=12):
     """TLC-validate a recorded history file against the ideal stream spec; report rejects."""
     recs, eps, r, _ = vlib.validate_episodes(c, "TraceStream", trace, lambda e, first: describe(e, first["variant"], build), _canary, label, workers=workers)
     return recs, eps, r
@@ -214,6 +229,12 @@ def run_stream(c, focus):
     script, expect, walks = scripts_from_graph(g, c.seed)
     spath = os.path.join(wd, "graph.script")
     open(spath, "w").write(script)
+    if not c.thorough:
+        script_d, expect_d, _ = scripts_from_graph(g, c.seed, every=3)
+        spath_d = os.path.join(wd, "graph-dbg.script")
+        open(spath_d, "w").write(script_d)
+    else:
+        spath_d, expect_d = spath, expect
     c.cov["graph_edges"] = len(g.edges)
     c.cov["graph_states"] = len(g.nodes)
     c.cov["replay_walks"] = len(walks)
@@ -223,11 +244,12 @@ def run_stream(c, focus):
     for b in builds:
         binary = vlib.build(b)
         trace = os.path.join(wd, "graph-%s.ndjson" % b)
-        vlib.run_harness(binary, ["stream-script", "--script", spath, "--seed", str(c.seed)], out=trace)
+        spath_b, expect_b = (spath_d, expect_d) if b == "std-dbg" else (spath, expect)
+        vlib.run_harness(binary, ["stream-script", "--script", spath_b, "--seed", str(c.seed)], out=trace)
         nrec = 0
         for shard, first, cnt in vlib.split_trace(trace):
             recs0 = vlib.read_ndjson(shard)
-            dr = drift(recs0, expect[first:first + cnt])
+            dr = drift(recs0, expect_b[first:first + cnt])
             drift_total += len(dr)
             for i, got, want in dr[:5]:
                 vlib.log("MODEL-DRIFT (%s) event %d: code %s model %s" % (b, first + i, got, want))
@@ -238,8 +260,8 @@ def run_stream(c, focus):
             os.remove(shard)
             del recs0, recs, eps
         os.remove(trace)
-        if nrec != len(expect):
-            raise vlib.ToolError("script produced %d events, expected %d" % (nrec, len(expect)))
+        if nrec != len(expect_b):
+            raise vlib.ToolError("script produced %d events, expected %d" % (nrec, len(expect_b)))
         # (e) random and test-suite-derived histories
         trace = os.path.join(wd, "rand-%s.ndjson" % b)
         vlib.run_harness(binary, ["stream-rand", "--seed", str(c.seed), "--tier", c.tier], out=trace)
